@@ -17,8 +17,10 @@ RULE = (
     "pre-installed / declared although pre-installed / absent; other software declared beside it; optional port listener; "
     "restart duration; node power durations) + op sequence over {start, stop, pause, resume, restart, disable, enable, fix, "
     "scan, execute, close, install, uninstall, tick, node off, node on, payload from the peer host}. All sequences to depth "
-    "3 (quick) / 4 (thorough) for three services and three applications, Hypothesis sequences to depth 30 for every "
-    "shipped type, and a restart-duration sweep per service type. Non-trivial = the sequence contains a request the "
+    "3 (quick) / 4 (thorough) for three services (11 symbols: the 7 state-changing verbs, tick, payload, node off, node on) "
+    "and three applications (9 symbols: execute, close, scan, install, uninstall, tick, payload, node off, node on); a sweep "
+    "of every shipped type x every non-running state x listener mode followed by a payload; Hypothesis sequences of length "
+    "3..30 over the full alphabet for every shipped type; and a restart-duration sweep d=0..4 per service type. Non-trivial = the sequence contains a request the "
     "reference machine refuses, or an op other than tick issued while RESTARTING / INSTALLING / FIXING, or a re-install; "
     "distinct by hash of the case."
 )
@@ -805,6 +807,9 @@ def state_sweep_cases():
             for pre in prefixes:
                 for lis in (False, "c2", "port"):
                     yield {"kind": kind, "type": typ, "declare": not system, "extra": [], "listener": lis, "rd": 2 if kind == "service" else None,
+                           "pd": 0, "ops": [list(o) for o in pre] + [["payload"], ["tick"], ["payload"]]}
+                if typ in REDECLARABLE:  # the same software declared again in the scenario file
+                    yield {"kind": kind, "type": typ, "declare": True, "extra": [], "listener": False, "rd": 2 if kind == "service" else None,
                            "pd": 0, "ops": [list(o) for o in pre] + [["payload"], ["tick"], ["payload"]]}
 
 
